@@ -9,9 +9,9 @@ from vlib.harness import ok, skip, viol
 PID = "C04"
 RULE = ("Program = [EQU defs] ORG o / LB NOP / <statement with the expression> / LA NOP / [EQU defs]. Positions: #imm8, "
         "#imm16, direct/extended, [extended indirect], constant index offset, label+-k,PCR, EQU operand (used through "
-        "LDX #sym), FCB, FDB, RMB, ORG. Expression = term op term or a single term; op in + - * /; term = decimal, $hex "
+        "LDX #sym), FCB, FDB (single value and the middle element of a list), RMB, ORG. Expression = term op term or a single term; op in + - * /; term = decimal, $hex "
         "with 1-4 digits, an EQU symbol whose definition is spelled in any way (decimal, hex, %binary, 'char, negative) "
-        "and placed before or after the use, the label before (LB) or the label after (LA) the statement; origins 0, "
+        "and placed before or after the use, an EQU symbol defined by an expression over another EQU that is defined after it, the label before (LB) or the label after (LA) the statement; origins 0, "
         "$F0, $1000, $7FF0, $FFE0 and constants chosen so that results land on 0, 255/256, 32767/32768, 65535/65536 "
         "and below 0. Enumerated: every position x op x 9x9 term-kind pairs on a boundary constant grid. Oracle: "
         "reference evaluation over Python integers (truncating division); x/0 must be a diagnostic; an 8-bit position "
@@ -25,12 +25,12 @@ ASSUMPTIONS = [
     "vlib/ref6809.py decodes instruction operands; FCB/FDB/RMB are read from the image directly",
 ]
 HEALTH = {"has_symbol": 0.5, "has_label": 0.2, "op:/": 0.1, "op:*": 0.1, "pos:equ": 0.03, "boundary": 0.05}
-EXHAUSTIVE = {"quick": ["11 positions x 4 operators x 7x7 term kinds x boundary constants (one constant pair per cell)"],
-              "thorough": ["11 positions x 4 operators x 7x7 term kinds x 6 boundary constant pairs"]}
+EXHAUSTIVE = {"quick": ["13 positions x 4 operators x 9x9 term kinds x boundary constants (one constant pair per cell)"],
+              "thorough": ["13 positions x 4 operators x 9x9 term kinds x 6 boundary constant pairs"]}
 
-POSITIONS = ["imm8", "imm16", "mem", "extind", "idx", "pcr", "equ", "fcb", "fdb", "rmb", "org"]
+POSITIONS = ["imm8", "imm16", "mem", "extind", "idx", "pcr", "equ", "fcb", "fdb", "fcblist", "fdblist", "rmb", "org"]
 OPS = ["+", "-", "*", "/"]
-TERM_KINDS = ["dec", "hex", "equ_before", "equ_after", "lb", "la", "equ_neg"]
+TERM_KINDS = ["dec", "hex", "equ_before", "equ_after", "lb", "la", "equ_neg", "equ_chain_rev", "equ_chain_after"]
 ORGS = [0x0000, 0x00F0, 0x1000, 0x7FF0, 0xFFE0]
 CONSTS = [0, 1, 2, 3, 5, 15, 16, 127, 128, 255, 256, 257, 1000, 4096, 32767, 32768, 65535]
 PAIRS = [(5, 2), (255, 1), (256, 1), (32767, 1), (65535, 1), (2, 0), (1000, 3), (128, 2), (16, 16)]
@@ -90,6 +90,17 @@ def build(case, swap_equ=False, respell=False):
                 before = not before
             (pre if before else post).append(line)
             terms.append((name, "const", val))
+        elif k in ("equ_chain_rev", "equ_chain_after"):
+            # the symbol is defined by an expression over another EQU symbol; the inner definition comes last
+            name, inner = "ZQ" + side, "ZX" + side
+            b = 1 + spi % 7
+            outer_line = A.line(name, "EQU", "{}+{}".format(inner, b) if v >= b else "{}-{}".format(inner, b))
+            inner_line = A.line(inner, "EQU", _equ_spelling(v - b if v >= b else v + b, spi))
+            before = (k == "equ_chain_rev")
+            if swap_equ:
+                before = not before
+            (pre if before else post).extend([outer_line, inner_line])
+            terms.append((name, "const", v))
         elif k == "lb":
             terms.append(("ZZB", "lb", None))
         else:
@@ -118,6 +129,10 @@ def build(case, swap_equ=False, respell=False):
         stmt = A.line("", "FCB", expr)
     elif pos == "fdb":
         stmt = A.line("", "FDB", expr)
+    elif pos == "fcblist":
+        stmt = A.line("", "FCB", "$7E," + expr + ",1")
+    elif pos == "fdblist":
+        stmt = A.line("", "FDB", "$7E01," + expr + ",1")
     elif pos == "rmb":
         stmt = A.line("", "RMB", expr)
     else:
@@ -189,7 +204,7 @@ def execute(case):
         for r in candidates:
             if r is None:
                 allowed = True
-            elif pos in ("imm8", "fcb"):
+            elif pos in ("imm8", "fcb", "fcblist"):
                 allowed = allowed or not -128 <= r <= 255
             elif pos == "rmb":
                 allowed = allowed or r < 0 or org + 2 + r > 65535
@@ -234,8 +249,13 @@ def execute(case):
     nontrivial = has_symbol or boundary
     got = None
     width = 2
-    if pos in ("fcb", "fdb"):
-        width = 1 if pos == "fcb" else 2
+    if pos in ("fcb", "fdb", "fcblist", "fdblist"):
+        width = 1 if pos.startswith("fcb") else 2
+        if pos.endswith("list"):
+            # the expression is the middle element of a three-element list
+            if len(body) != 3 * width or body[:width] != (b"\x7e" if width == 1 else b"\x7e\x01") or int.from_bytes(body[2 * width:], "big") != 1:
+                return viol("{!r}: list emitted as {}.".format(src, body.hex()) + ctx, fid=fid + "size", labels=labels)
+            body = body[width:2 * width]
         if len(body) != width:
             return viol("{!r}: emitted {} bytes ({}).".format(src, len(body), body.hex()) + ctx, fid=fid + "size", labels=labels)
         got = int.from_bytes(body, "big")
@@ -288,7 +308,7 @@ def execute(case):
                     fid=fid + "value", labels=labels)
     # metamorphic side checks: same encoded value (same image where the width is fixed by the position; for direct /
     # extended and index offsets any width is interchangeable, so only the accepted/encoded value is compared above)
-    fixed_width = pos in ("imm8", "imm16", "extind", "fcb", "fdb", "equ")
+    fixed_width = pos in ("imm8", "imm16", "extind", "fcb", "fdb", "fcblist", "fdblist", "equ")
     variants = [("spelling", dict(respell=True))]
     if any(t["k"].startswith("equ") for t in (case["l"], case["r"])):
         variants.append(("definition-order", dict(swap_equ=True)))
